@@ -88,8 +88,14 @@ def gen_calendar(rng, tidy=True):
                 text = nl.join(parts)
             cls.add("empty-line")
         elif r < 0.9:
-            text = text[:rng.randint(1, len(text) - 1)]
-            cls.add("truncated")
+            ends = [m.end() for m in re.finditer(r"END:V(?:EVENT|TODO)" + nl, text)]
+            if ends and rng.random() < 0.6:
+                # the stream stops right behind a complete component: nothing said so far is left open
+                text = text[:rng.choice(ends)]
+                cls.add("stops-after-component")
+            else:
+                text = text[:rng.randint(1, len(text) - 1)]
+                cls.add("truncated")
         else:
             b = bytearray(text.encode())
             for _ in range(rng.randint(1, 12)):
@@ -101,7 +107,7 @@ def gen_calendar(rng, tidy=True):
     return text, cls
 
 
-def chunkings(rng, n, thorough):
+def chunkings(rng, n, thorough, text=""):
     out = [[], [1] * n, [7] * (n // 7 + 1), [64] * (n // 64 + 1), [4096]]
     cuts = range(1, n) if (thorough and n <= 600) else sorted(rng.sample(range(1, n), min(n - 1, 25))) if n > 1 else []
     out += [[c] for c in cuts]
@@ -111,11 +117,17 @@ def chunkings(rng, n, thorough):
             k = rng.choice([1, 2, 3, 5, 17, 50, 200])
             sizes.append(k); tot += k
         out.append(sizes)
+    # the daemon's way of ending the input: an empty push when recv() returns 0
+    out += [["e"], [7] * (n // 7 + 1) + ["e"]] + [[c, "e"] for c in list(cuts)[:: max(1, len(cuts) // 6)]]
+    # ... with the last read starting at the blank of a fold
+    folds = [m.start() + 1 for m in re.finditer(r"\n[ \t]", text)]
+    out += [[c, "e"] for c in (folds if thorough else rng.sample(folds, min(len(folds), 6)))]
     return out
 
 
 def canon(ans):
-    return ans.partition(" # ")[0]
+    # `L`: the task came with the last pull; after an empty push it comes with an ordinary one, all the same to the caller
+    return re.sub(r"(^| )L([SUR]\{)", r"\1\2", ans.partition(" # ")[0])
 
 
 def run(ctx):
@@ -136,7 +148,7 @@ def run(ctx):
     ops, meta = [], []
     for idx, (text, cls) in enumerate(inputs):
         h = text.encode("latin-1").hex()
-        for ch in chunkings(rng, len(text), thorough):
+        for ch in chunkings(rng, len(text), thorough, text):
             ops.append("p.lines %s | %s" % (h, " ".join(map(str, ch))))
             meta.append(idx)
     impl, st, err = ctx.impl(exe, ops, timeout=3600)
@@ -163,10 +175,13 @@ def run(ctx):
                     idx, ops[i].split("|")[1].strip()[:40], a[:300], first[idx][1][:300])))
     # correspondence: verb:uid sequence and the log of lines
     def verbs(x):
-        x = re.sub(r"([SL]+)\{uid=([^|}]*)[^}]*\}", lambda m: m.group(1)[0] + ":" + m.group(2), canon(x))
-        return re.sub(r"([UR])\{([^}]*)\}", r"\1:\2", x)
-    impl_c = [verbs(x) + " # " + x.partition(" # ")[2] for x in impl]
-    corr = common.diff_lines(ops, impl_c, model)
+        x = re.sub(r"([SL]+)\{uid=([^|}]*)[^}]*\}", lambda m: m.group(1)[0] + ":" + m.group(2), x.partition(" # ")[0])
+        return re.sub(r"(L?[UR])\{([^}]*)\}", r"\1:\2", x)
+    # a task without UID line gets a generated one (field level, not modelled): the model says `~'
+    impl_c = [re.sub(r"echse/autouid-0x[0-9a-f]+@echse", "~", verbs(x)) + " # " + x.partition(" # ")[2] for x in impl]
+    # bytes >= 0x80 in a UID: the harness writes the byte, the driver the character's UTF-8 form
+    hi = lambda s: re.sub(r"[^\x00-\x7f]+", "?", s)
+    corr = common.diff_lines(ops, [hi(x) for x in impl_c], [hi(x) for x in model])
     kl = common.load_known("C10")
     for k in kl:
         if k.get("status") == "known" and known.get(k.get("class"), 0):
@@ -175,6 +190,10 @@ def run(ctx):
     if unlisted and not fails:
         i0 = next(i for i, idx in enumerate(meta) if inputs[idx][1] & set(unlisted) and idx in first and canon(impl[i]) != first[idx][1])
         fails.append((i0, "chunk-dependent parse of an input of class %s (not a recorded finding)" % unlisted))
+    cli_fails, cli_sizes = cli_part(ctx, rng, 60 if thorough else 16)
+    ctx.cov["cli_files"] = {"n": len(cli_sizes), "over_64KiB": sum(1 for s in cli_sizes if s > 65536), "over_128KiB": sum(1 for s in cli_sizes if s > 131072),
+                            "failures": len(cli_fails), "rule": "files of 2-5 calendars (PUBLISH/REQUEST/none/CANCEL/REPLY, one one-off event each, "
+                            "0-1100 padding lines) through the real `echse unroll' (64 KiB reads); listed events = events of the scheduling calendars"}
     ctx.cov.update({
         "evaluations": len(ops),
         "distinct_nontrivial": len(set(ops)),
@@ -183,7 +202,7 @@ def run(ctx):
                 "CRLF, nested VALARM/VTIMEZONE, calendar-level defaults, METHOD variants, values up to 900 bytes); a third of them "
                 "malformed (backslash escapes, a second calendar behind the first, lines beyond the 1 KiB stash, empty lines, "
                 "truncation, random byte damage); each fed whole, byte-wise, in 7/64/4096-byte pieces, split in two at "
-                + ("every position" if thorough else "25 sampled positions") + " and in random pieces; non-trivial = every run; "
+                + ("every position" if thorough else "25 sampled positions") + ", in random pieces, and with an empty push behind the data (echsd's end of input); non-trivial = every run; "
                 "distinct = distinct (input, chunking)",
         "samples": [ops[i][:90] + " … | " + ops[i].split("|")[1][:40] + "  =>  " + canon(impl[i])[:120] for i in
                     sorted(rng.sample(range(len(ops)), min(4, len(ops))))],
@@ -199,7 +218,10 @@ def run(ctx):
                         "the Lean model covers the byte/line/component layers"]
     if st != "ok" and not fails and not corr:
         ctx.violation("correspondence", "harness ended with %s: %s" % (st, err[-600:]), {"stderr": err}, found_input=False)
-    if fails:
+    if cli_fails and not fails:
+        ctx.violation("property", cli_fails[0], {"op": "real echse unroll on a generated file", "all": cli_fails[:5],
+                                                 "file_zlib_b64": ctx.cov.pop("cli_failing_file_hex_gz", None)})
+    elif fails:
         i, why = fails[0]
         ctx.violation("property", why, {"op": ops[i], "impl": impl[i] if i < len(impl) else None, "model": model[i],
                                         "failures_total": len(fails)})
@@ -208,6 +230,52 @@ def run(ctx):
         ctx.violation("correspondence", "implementation and model act on different unfolded lines in %d runs although all chunkings agree; first: %s"
                       % (len(corr), op[:120]), {"correspondence": "Echse.Model.Ical vs evical.c (_ical_pull, esccpy, _ical_proc)", "op": op,
                                                  "impl": a, "model": b}, found_input=False)
+
+
+def cli_part(ctx, rng, n):
+    """the command line tool reads files through one 64 KiB buffer: what it makes of a file must not depend on where
+    the 64 KiB marks fall.  Files are sequences of calendars (PUBLISH, REQUEST, none, CANCEL, REPLY) with one one-off
+    event each and comment lines as padding; `echse unroll' must list exactly the events of the calendars that schedule."""
+    import os, subprocess, tempfile
+    objs, log = ctx.lib_objects()
+    if objs is None:
+        raise common.Broken("library does not compile: " + log[-1500:])
+    exe, log = ctx.cc("echse_hx", [os.path.join(common.HARNESS, "hx_echse.c"), os.path.join(ctx.src, "version.c")] + objs,
+                      extra=["-DHAVE_VERSION_H", "-DSTANDALONE"])
+    if exe is None:
+        raise common.Broken("echse.c does not compile against the working tree:\n" + log[-2500:])
+    base = tempfile.mkdtemp(prefix="hxc10-", dir=ctx.scratch)
+    fails, sizes = [], []
+    for i in range(n):
+        cals, want = [], []
+        for k in range(rng.randint(2, 5)):
+            meth = rng.choice(["PUBLISH", "REQUEST", None, "CANCEL", "REPLY", "CANCEL"])
+            pad = ["X-C:%s" % ("c" * rng.randint(10, 70)) for _ in range(rng.choice([0, 0, 3, 400, 900, 1100]))]
+            ev = ["BEGIN:VEVENT", "UID:e%d" % k, "SUMMARY:E%d" % k, "DTSTART:201501%02dT000000Z" % (k + 2)]
+            if meth == "REPLY":
+                ev.append("REQUEST-STATUS:2.0;Success")
+            ev.append("END:VEVENT")
+            where = rng.choice(["before", "after", "inside"])
+            body = (pad + ev) if where == "before" else (ev + pad) if where == "after" else (ev[:3] + ["DESCRIPTION:" + "d" * 30] * (len(pad) // 2) + ev[3:])
+            cals.append(["BEGIN:VCALENDAR", "VERSION:2.0"] + (["METHOD:" + meth] if meth else []) + body + ["END:VCALENDAR"])
+            if meth in ("PUBLISH", "REQUEST", None):
+                want.append("2015-01-%02dT00:00:00\tE%d" % (k + 2, k))
+        text = "\r\n".join(l for c in cals for l in c) + "\r\n"
+        fn = os.path.join(base, "f%d.ics" % i)
+        open(fn, "w", newline="").write(text)
+        sizes.append(len(text))
+        r = subprocess.run([exe, "unroll", fn, "--from", "2015-01-01", "--till", "2015-02-01"], stdout=subprocess.PIPE, stderr=subprocess.PIPE,
+                           env=dict(os.environ, ASAN_OPTIONS="detect_leaks=0"), timeout=120)
+        got = sorted(r.stdout.decode("latin-1").split("\n")[:-1])
+        errtxt = r.stderr.decode("latin-1")
+        crashed = r.returncode < 0 or "Sanitizer" in errtxt or "runtime error" in errtxt
+        if crashed or got != sorted(want):
+            fails.append("`echse unroll' on a file of %d bytes (%s) lists %s, the calendars that schedule hold %s%s" % (
+                len(text), ", ".join("%s:%d lines" % (c[2][7:] if c[2].startswith("METHOD") else "no method", len(c)) for c in cals),
+                got, sorted(want), "; exit %d %s" % (r.returncode, errtxt[-300:]) if crashed else ""))
+            if len(fails) == 1:
+                ctx.cov["cli_failing_file_hex_gz"] = __import__("base64").b64encode(__import__("zlib").compress(text.encode())).decode()
+    return fails, sizes
 
 
 def replay(ctx, rep):
